@@ -24,16 +24,16 @@ level_of() {
     esac
 }
 
-runs_of() { # <ID> <tier>
+runs_of() { # <ID> <tier>; thorough runs are additionally bounded by the time budget
     case "$2:$1" in
-        quick:C15) echo 96 ;;
-        thorough:C15) echo 1600 ;;
-        quick:C14|quick:C16) echo 24000 ;;
-        thorough:C14|thorough:C16) echo 600000 ;;
-        quick:C12|quick:C13) echo 40000 ;;
-        thorough:C12|thorough:C13) echo 1000000 ;;
-        quick:*) echo 100000 ;;
-        thorough:*) echo 2400000 ;;
+        quick:C15) echo 160 ;;
+        quick:C16) echo 60000 ;;
+        quick:C12) echo 120000 ;;
+        quick:C14) echo 160000 ;;
+        quick:C03|quick:C06|quick:C05|quick:C09|quick:C13) echo 200000 ;;
+        quick:*) echo 300000 ;;
+        thorough:C15) echo 4000 ;;
+        thorough:*) echo 40000000 ;;
     esac
 }
 
@@ -57,7 +57,7 @@ case "$cmd" in
         tier="${2:-${VERIF_TIER:-quick}}"
         build
         runs="${VERIF_RUNS:-$(runs_of "$id" "$tier")}"
-        if [ "$tier" = thorough ]; then budget="${VERIF_BUDGET_S:-1500}"; else budget="${VERIF_BUDGET_S:-240}"; fi
+        if [ "$tier" = thorough ]; then budget="${VERIF_BUDGET_S:-420}"; else budget="${VERIF_BUDGET_S:-240}"; fi
         mkdir -p "$HERE/evidence" "$HERE/replays"
         "$SHIP" check "$id" --tier "$tier" --runs "$runs" --seed "${VERIF_SEED:-1}" --jobs "${VERIF_JOBS:-$(nproc)}" \
             --budget-s "$budget" --ship "$SHIP" --chk "$CHK" --replay-dir "$HERE/replays" \
